@@ -142,8 +142,10 @@ def gen_mtz_cases(rng, quick, hm):
     for v in range(4):
         toks = out[2 * v].split('\t')[2].split()
         size = int(out[2 * v + 1].split('\t')[2])
-        for mode in range(6):
+        for mode in range(8):       # memory / file / gzip / gzip + corrupt second member, with and without data
             lines.append('mtz_valid\t%d %d' % (v, mode))
+        for _ in range(4 if quick else 200):
+            lines.append('mtz_cut\t%d %d %d' % (v, rng.randint(size - 200, size + 5), rng.choice([6, 7])))
         vals = [int(t) for t in toks]
         for i, a in enumerate(vals):
             cand = set(MTZ_VALUES) | {str(a + 1), str(a - 1), str(2 * a), str(-a)}
